@@ -39,7 +39,7 @@ def _trap(y, x):
 
 
 # ---- K1 ------------------------------------------------------------------------------------------
-@harness("C14.integrate-1d", cases=lambda tier: [2, 3, 4] + ([5, 6] if tier == "thorough" else []),
+@harness("C14.integrate-1d", cases=lambda tier: [2, 3, 4] + ([5, 6, 7, 8] if tier == "thorough" else []),
          expect=lambda c: ["equals-trapezoid", "linear-in-y", "sign-on-reversal", "unit-spacing-default"]
          + (["additive-at-grid-point"] if c >= 3 else []))
 def k_int1d(ctx):
@@ -61,7 +61,7 @@ def k_int1d(ctx):
                           + MC.integrate_column(y[k:], x[k:]), I))
 
 
-@harness("C14.integrate-2d", cases=lambda tier: [(2, 3), (3, 2)] + ([(2, 2, 2)] if tier == "thorough" else []),
+@harness("C14.integrate-2d", cases=lambda tier: [(2, 3), (3, 2)] + ([(2, 2, 2), (3, 2, 2), (4, 3)] if tier == "thorough" else []),
          expect=lambda c: ["axis-result-shape", "axis-equals-trapezoid"])
 def k_int2d(ctx):
     shape = ctx.case
@@ -216,7 +216,7 @@ PLAN = {
 }
 BOUNDS = {"quick": {"integrate_column": "1-D n <= 4 levels; 2-D shapes (2,3), (3,2) along both axes; all real y, x",
                     "iwv / crh / pressure2height": "n <= 3 levels, strictly decreasing p > 0, T > 0, vmr, q in [0,1)"},
-          "thorough": {"integrate_column": "1-D n <= 6; adds shape (2,2,2)", "iwv / p2z": "n <= 4"}}
+          "thorough": {"integrate_column": "1-D n <= 8; adds shapes (2,2,2), (3,2,2), (4,3)", "iwv / p2z": "n <= 4"}}
 OUTSIDE = ["convergence of the two IWV formulations to each other and of pressure2height to (RT/g) ln(p0/p) (limits)",
            "standard_atmosphere (scipy interp1d)", "grids beyond the level bound", "floating point"]
 STUBS = ["np proxy (np.trapezoid, diff, cumsum, hstack run for real on object arrays)",
